@@ -155,10 +155,10 @@ Sample ==
                              want |-> ReporterLogA(clock, srcs)])
     /\ UNCHANGED <<scen, srcs, clock, nadds>>
 
-Next ==
-    \/ nops < MaxOps(scen) /\ nadds < MaxAdds(scen) /\ \E t \in Addable(scen) : AddSource(t)
-    \/ nops < MaxOps(scen) /\ \E c \in ClocksOf(scen) : SetClock(c)
-    \/ Sample
+\* (guards first: the sets are large)
+AddAny == nops < MaxOps(scen) /\ nadds < MaxAdds(scen) /\ \E t \in Addable(scen) : AddSource(t)
+ClockAny == nops < MaxOps(scen) /\ \E c \in ClocksOf(scen) : SetClock(c)
+Next == AddAny \/ ClockAny \/ Sample
 
 Spec == Init /\ [][Next]_vars
 
